@@ -348,11 +348,11 @@ class WriteFaults(Engine):
         sub = []
         proto = []
         for _ in range(rng.randint(1, 2)):
-            gene = rng.choice(record["genes"])["parts"][0]     # areas must contain a complete gene
+            gene = rng.choice([g for g in record["genes"] if len(g["parts"]) == 1])["parts"][0]   # a complete gene
             sub.append({"start": max(0, gene[0] - rng.choice([0, 10, 200])),
                         "end": min(length, gene[1] + rng.choice([0, 10, 200])), "label": "sim-sub"})
         if rng.random() < 0.6:
-            gene = rng.choice(record["genes"])["parts"][0]
+            gene = rng.choice([g for g in record["genes"] if len(g["parts"]) == 1])["parts"][0]
             left, right = rng.choice([0, 100]), rng.choice([0, 100])
             if not record.get("circular"):      # on a linear record neighbourhoods must stay inside
                 left, right = min(left, gene[0]), min(right, length - gene[1])
